@@ -49,6 +49,7 @@ fn pools(ty: &str) -> Vec<(Value, String)> {
         "NaiveTime" => pool!(chrono::NaiveTime, [chrono::NaiveTime::from_hms_opt(23, 59, 59).unwrap(), chrono::NaiveTime::from_hms_micro_opt(1, 2, 3, 456).unwrap()]),
         "NaiveDateTime" => pool!(chrono::NaiveDateTime, [chrono::NaiveDate::from_ymd_opt(2020, 2, 29).unwrap().and_hms_opt(1, 2, 3).unwrap()]),
         "DateTime<Utc>" => pool!(chrono::DateTime<chrono::Utc>, [chrono::DateTime::<chrono::Utc>::from_timestamp(1_600_000_000, 5).unwrap()]),
+        "DateTime<Local>" => pool!(chrono::DateTime<chrono::Local>, [chrono::DateTime::<chrono::Local>::from(chrono::DateTime::<chrono::Utc>::from_timestamp(1_600_000_000, 5).unwrap()), chrono::DateTime::<chrono::Local>::from(chrono::DateTime::<chrono::Utc>::from_timestamp(-1, 0).unwrap())]),
         "DateTime<FixedOffset>" => pool!(chrono::DateTime<chrono::FixedOffset>, [chrono::DateTime::parse_from_rfc3339("2020-01-02T03:04:05+08:00").unwrap()]),
         "time::Date" => pool!(time::Date, [time::Date::from_calendar_date(2020, time::Month::February, 29).unwrap()]),
         "time::Time" => pool!(time::Time, [time::Time::from_hms(1, 2, 3).unwrap()]),
@@ -74,7 +75,7 @@ fn null_of(ty: &str) -> Value {
         "u8" => n!(u8), "u16" => n!(u16), "u32" => n!(u32), "u64" => n!(u64), "f32" => n!(f32), "f64" => n!(f64),
         "char" => n!(char), "String" => n!(String), "Vec<u8>" => n!(Vec<u8>), "Json" => n!(serde_json::Value),
         "NaiveDate" => n!(chrono::NaiveDate), "NaiveTime" => n!(chrono::NaiveTime), "NaiveDateTime" => n!(chrono::NaiveDateTime),
-        "DateTime<Utc>" => n!(chrono::DateTime<chrono::Utc>), "DateTime<FixedOffset>" => n!(chrono::DateTime<chrono::FixedOffset>),
+        "DateTime<Utc>" => n!(chrono::DateTime<chrono::Utc>), "DateTime<Local>" => n!(chrono::DateTime<chrono::Local>), "DateTime<FixedOffset>" => n!(chrono::DateTime<chrono::FixedOffset>),
         "time::Date" => n!(time::Date), "time::Time" => n!(time::Time), "PrimitiveDateTime" => n!(time::PrimitiveDateTime),
         "OffsetDateTime" => n!(time::OffsetDateTime), "Decimal" => n!(rust_decimal::Decimal), "BigDecimal" => n!(bigdecimal::BigDecimal),
         "Uuid" => n!(uuid::Uuid), "IpNetwork" => n!(ipnetwork::IpNetwork), "MacAddress" => n!(mac_address::MacAddress), "Vector" => n!(pgvector::Vector),
@@ -104,7 +105,7 @@ fn extract(tgt: &str, opt: bool, v: Value) -> J {
         "u8" => t!(u8), "u16" => t!(u16), "u32" => t!(u32), "u64" => t!(u64), "f32" => t!(f32), "f64" => t!(f64),
         "char" => t!(char), "String" => t!(String), "Vec<u8>" => t!(Vec<u8>), "Json" => t!(serde_json::Value),
         "NaiveDate" => t!(chrono::NaiveDate), "NaiveTime" => t!(chrono::NaiveTime), "NaiveDateTime" => t!(chrono::NaiveDateTime),
-        "DateTime<Utc>" => t!(chrono::DateTime<chrono::Utc>), "DateTime<FixedOffset>" => t!(chrono::DateTime<chrono::FixedOffset>),
+        "DateTime<Utc>" => t!(chrono::DateTime<chrono::Utc>), "DateTime<Local>" => t!(chrono::DateTime<chrono::Local>), "DateTime<FixedOffset>" => t!(chrono::DateTime<chrono::FixedOffset>),
         "time::Date" => t!(time::Date), "time::Time" => t!(time::Time), "PrimitiveDateTime" => t!(time::PrimitiveDateTime),
         "OffsetDateTime" => t!(time::OffsetDateTime), "Decimal" => t!(rust_decimal::Decimal), "BigDecimal" => t!(bigdecimal::BigDecimal),
         "Uuid" => t!(uuid::Uuid), "IpNetwork" => t!(ipnetwork::IpNetwork), "MacAddress" => t!(mac_address::MacAddress), "Vector" => t!(pgvector::Vector),
@@ -265,6 +266,25 @@ fn eq_pool() -> Vec<(String, Value)> {
     add("ChronoDate:null", Value::ChronoDate(None)); add("ChronoDate:d1", chrono::NaiveDate::from_ymd_opt(2020, 1, 1).unwrap().into());
     add("TimeDate:null", Value::TimeDate(None)); add("TimeDate:d1", time::Date::from_calendar_date(2020, time::Month::January, 1).unwrap().into());
     add("ChronoDateTime:dt1", chrono::NaiveDate::from_ymd_opt(2020, 1, 1).unwrap().and_hms_opt(0, 0, 0).unwrap().into());
+    add("ChronoDateTime:null", Value::ChronoDateTime(None));
+    add("ChronoTime:null", Value::ChronoTime(None)); add("ChronoTime:t1", chrono::NaiveTime::from_hms_opt(1, 2, 3).unwrap().into());
+    add("ChronoDateTimeUtc:null", Value::ChronoDateTimeUtc(None)); add("ChronoDateTimeUtc:u1", chrono::DateTime::<chrono::Utc>::from_timestamp(1_600_000_000, 0).unwrap().into());
+    add("ChronoDateTimeLocal:null", Value::ChronoDateTimeLocal(None)); add("ChronoDateTimeLocal:l1", chrono::DateTime::<chrono::Local>::from(chrono::DateTime::<chrono::Utc>::from_timestamp(1_600_000_000, 0).unwrap()).into());
+    // one instant written with two offsets, and a different instant
+    add("ChronoDateTimeWithTimeZone:null", Value::ChronoDateTimeWithTimeZone(None));
+    add("ChronoDateTimeWithTimeZone:z0", chrono::DateTime::parse_from_rfc3339("2020-01-02T12:00:00+00:00").unwrap().into());
+    add("ChronoDateTimeWithTimeZone:z2", chrono::DateTime::parse_from_rfc3339("2020-01-02T14:00:00+02:00").unwrap().into());
+    add("ChronoDateTimeWithTimeZone:z0b", chrono::DateTime::parse_from_rfc3339("2020-01-02T14:00:00+00:00").unwrap().into());
+    add("TimeTime:null", Value::TimeTime(None)); add("TimeTime:t1", time::Time::from_hms(1, 2, 3).unwrap().into());
+    add("TimeDateTime:null", Value::TimeDateTime(None));
+    add("TimeDateTime:dt1", time::PrimitiveDateTime::new(time::Date::from_calendar_date(2020, time::Month::January, 2).unwrap(), time::Time::from_hms(12, 0, 0).unwrap()).into());
+    add("TimeDateTimeWithTimeZone:null", Value::TimeDateTimeWithTimeZone(None));
+    {
+        let d = time::Date::from_calendar_date(2020, time::Month::January, 2).unwrap();
+        let at = |h: u8, off: i8| time::PrimitiveDateTime::new(d, time::Time::from_hms(h, 0, 0).unwrap()).assume_offset(time::UtcOffset::from_hms(off, 0, 0).unwrap());
+        add("TimeDateTimeWithTimeZone:z0", at(12, 0).into()); add("TimeDateTimeWithTimeZone:z2", at(14, 2).into()); add("TimeDateTimeWithTimeZone:z0b", at(14, 0).into());
+    }
+    add("BigDecimal:null", Value::BigDecimal(None)); add("IpNetwork:null", Value::IpNetwork(None)); add("MacAddress:null", Value::MacAddress(None));
     add("Decimal:null", Value::Decimal(None)); add("Decimal:1.0", rust_decimal::Decimal::new(10, 1).into()); add("Decimal:1.00", rust_decimal::Decimal::new(100, 2).into()); add("Decimal:2", rust_decimal::Decimal::new(2, 0).into());
     add("BigDecimal:1.0", bigdecimal::BigDecimal::from_str("1.0").unwrap().into()); add("BigDecimal:1.00", bigdecimal::BigDecimal::from_str("1.00").unwrap().into());
     add("Uuid:null", Value::Uuid(None)); add("Uuid:nil", uuid::Uuid::nil().into()); add("Uuid:x", uuid::Uuid::from_u128(7).into());
@@ -307,8 +327,21 @@ pub fn eqcase(c: &J) -> J {
             let cl = a.clone();
             // value tuples as keys
             let vt_eq: Vec<bool> = pool.iter().map(|(_, b)| ValueTuple::Two(a.clone(), 1i32.into()) == ValueTuple::Two(b.clone(), 1i32.into())).collect();
+            // value tuples of the same content in their fixed-arity and in their Many representation, as keys
+            let x: Value = 1i32.into(); let y: Value = "k".into();
+            let forms = |v: &Value| -> Vec<(ValueTuple, ValueTuple)> { vec![
+                (ValueTuple::One(a.clone()), ValueTuple::One(v.clone())),
+                (ValueTuple::One(a.clone()), ValueTuple::Many(vec![v.clone()])),
+                (ValueTuple::Two(a.clone(), x.clone()), ValueTuple::Many(vec![v.clone(), x.clone()])),
+                (ValueTuple::Three(x.clone(), a.clone(), y.clone()), ValueTuple::Many(vec![x.clone(), v.clone(), y.clone()])),
+                (ValueTuple::Many(vec![a.clone(), x.clone(), y.clone(), x.clone()]), ValueTuple::Many(vec![v.clone(), x.clone(), y.clone(), x.clone()])),
+            ] };
+            let th = |t: &ValueTuple| { use std::hash::{Hash, Hasher}; let mut h = std::collections::hash_map::DefaultHasher::new(); t.hash(&mut h); h.finish() };
+            let vtx_eq: Vec<Vec<bool>> = pool.iter().map(|(_, b)| forms(b).iter().map(|(p, q)| p == q).collect()).collect();
+            let vtx_hash: Vec<Vec<bool>> = pool.iter().map(|(_, b)| forms(b).iter().map(|(p, q)| th(p) == th(q)).collect()).collect();
+            let vtx_set: Vec<Vec<bool>> = pool.iter().map(|(_, b)| forms(b).iter().map(|(p, q)| { let mut s = std::collections::HashSet::new(); s.insert(p.clone()); s.contains(q) }).collect()).collect();
             json!({"id": c["id"], "kind": "row", "i": i, "name": n, "eq": eqs, "eq_rev": eqs_rev, "hash_eq": hashes_equal, "in_set": in_set,
-                   "clone_eq": *a == cl, "vt_eq": vt_eq})
+                   "clone_eq": *a == cl, "vt_eq": vt_eq, "vtx_eq": vtx_eq, "vtx_hash": vtx_hash, "vtx_set": vtx_set})
         }
         _ => panic!("eq case kind"),
     }
